@@ -296,6 +296,7 @@ func (p *PkgCtx) isOpaqueElem(t types.Type) bool {
 
 type State struct {
 	c    *VCtx
+	symObjs map[string]ObjID // lazily materialised pointees of unknown pointers
 	objs map[ObjID]Val
 	regs map[ssa.Value]Val
 	pc   []Term
@@ -304,12 +305,15 @@ type State struct {
 }
 
 func (s *State) clone() *State {
-	n := &State{c: s.c, objs: make(map[ObjID]Val, len(s.objs)), regs: make(map[ssa.Value]Val, len(s.regs))}
+	n := &State{c: s.c, objs: make(map[ObjID]Val, len(s.objs)), regs: make(map[ssa.Value]Val, len(s.regs)), symObjs: make(map[string]ObjID, len(s.symObjs))}
 	for k, v := range s.objs {
 		n.objs[k] = v
 	}
 	for k, v := range s.regs {
 		n.regs[k] = v
+	}
+	for k, v := range s.symObjs {
+		n.symObjs[k] = v
 	}
 	n.pc = append([]Term(nil), s.pc...)
 	return n
@@ -317,9 +321,12 @@ func (s *State) clone() *State {
 
 // snapshot: heap only (for old()).
 func (s *State) snapshot() *State {
-	n := &State{c: s.c, objs: make(map[ObjID]Val, len(s.objs)), regs: s.regs}
+	n := &State{c: s.c, objs: make(map[ObjID]Val, len(s.objs)), regs: s.regs, symObjs: make(map[string]ObjID, len(s.symObjs))}
 	for k, v := range s.objs {
 		n.objs[k] = v
+	}
+	for k, v := range s.symObjs {
+		n.symObjs[k] = v
 	}
 	return n
 }
@@ -610,8 +617,44 @@ func zipTree(a, b SeqTree, f func(x, y Term)) {
 // Load / store through structural pointers
 // ---------------------------------------------------------------------------
 
+// resolve turns an unknown (symbolic) pointer into a structural one by materialising an
+// unconstrained pointee the first time it is dereferenced. Different unknown pointers get
+// different pointees (no-alias assumption, DESIGN 2.3).
+func (s *State) resolve(p PtrV) (PtrV, bool) {
+	if p.Sym == "" {
+		return p, p.Obj != 0
+	}
+	pt, ok := p.Typ.(*types.Pointer)
+	if !ok {
+		if p.Typ == nil {
+			return p, false
+		}
+		pt, ok = p.Typ.Underlying().(*types.Pointer)
+		if !ok {
+			return p, false
+		}
+	}
+	if s.symObjs == nil {
+		s.symObjs = map[string]ObjID{}
+	}
+	id, ok := s.symObjs[p.Sym]
+	if !ok {
+		id = s.c.newObj()
+		s.symObjs[p.Sym] = id
+		s.objs[id] = s.freshVal(pt.Elem(), "*"+strings.Trim(p.Sym, "|"), 0)
+	}
+	return PtrV{Obj: id, Path: p.Path, Typ: p.Typ}, true
+}
+
 func (s *State) load(p PtrV) (Val, bool) {
-	if p.Sym != "" || p.Obj == 0 {
+	if p.Sym != "" {
+		rp, ok := s.resolve(p)
+		if !ok {
+			return nil, false
+		}
+		p = rp
+	}
+	if p.Obj == 0 {
 		return nil, false
 	}
 	v, ok := s.objs[p.Obj]
@@ -638,7 +681,14 @@ func (s *State) load(p PtrV) (Val, bool) {
 }
 
 func (s *State) store(p PtrV, nv Val) bool {
-	if p.Sym != "" || p.Obj == 0 {
+	if p.Sym != "" {
+		rp, ok := s.resolve(p)
+		if !ok {
+			return false
+		}
+		p = rp
+	}
+	if p.Obj == 0 {
 		return false
 	}
 	v, ok := s.objs[p.Obj]
@@ -753,6 +803,13 @@ func (s *State) eqVal(a, b Val) Term {
 				return tFalse
 			}
 			return s.c.fresh("ifaceeq", SBool)
+		}
+	case MapV:
+		if y, ok := b.(MapV); ok {
+			if fmt.Sprint(x) == fmt.Sprint(y) {
+				return tTrue
+			}
+			return tAnd(tEq(x.Dom, y.Dom), tEq(x.Len, y.Len), tEq(x.Nil, y.Nil), s.c.fresh("mapvals_eq", SBool))
 		}
 	case SeqV:
 		if y, ok := b.(SeqV); ok {
